@@ -9,7 +9,7 @@ use std::time::Duration;
 pub fn def() -> CheckDef {
     CheckDef {
         id: "C04",
-        functions: &["strict::OpenHypergraph::{dagger,spider,identity,twist,compose,tensor}", "category::Spider::{spider,half_spider,dagger}", "strict::Hypergraph::{discrete,is_discrete}", "FiniteFunction::{identity,twist,coequalizer}"],
+        functions: &["strict::OpenHypergraph::{dagger,spider,identity,twist,compose,tensor}", "category::Spider::{spider,half_spider,dagger}", "strict::Hypergraph::{discrete,is_discrete}", "FiniteFunction::{identity,twist,coequalizer}", "lax::OpenHypergraph::{spider,identity,singleton,empty}", "lax::category::{Spider::{spider,half_spider,dagger},SymmetricMonoidal::twist}"],
         bounds_quick: "dagger laws: W<=2,X<=1,S,T<=2,interfaces<=2 (pairs: interfaces<=1); spider accept/reject: |w|<=2, legs<=2 with symbolic codomains 0..3; fusion: |w|,|w'|<=2, legs<=2 (shared boundary <=2)",
         bounds_thorough: "dagger laws W<=3,X<=2; spiders |w|<=3, legs<=3",
         jobs,
@@ -207,5 +207,8 @@ pub fn jobs(tier: Tier, seed: u64) -> Vec<Job> {
             break;
         }
     }
+    // lax half: constructors, spiders, dagger (dagger laws and fusion for lax diagrams are decided with C10's commutation jobs)
+    out.extend(super::lax::c04_lax_jobs(tier, seed));
+    out.extend(super::lax::c10_jobs(tier, seed).into_iter().filter(|j| j.name.starts_with("strictification commutes")).take(if tier == Tier::Quick { 300 } else { 3000 }));
     out
 }
